@@ -168,9 +168,15 @@ int main() {
 #endif
     vf::Case c;
     while (vf::read_case(std::cin, c)) {
+        // A record is written to stdout only when the case has completed: a crash in the middle of a case
+        // must not leave a truncated record behind (the runner isolates the case from what is missing).
+        std::ostringstream rec;
+        std::streambuf* old = std::cout.rdbuf(rec.rdbuf());
         if (c.kind == "est") run_est(c);
         else if (c.kind == "hb") run_hb(c);
-        else { std::fprintf(stderr, "BFL_VERIF_HARNESS unknown kind %s\n", c.kind.c_str()); return 3; }
+        else { std::cout.rdbuf(old); std::fprintf(stderr, "BFL_VERIF_HARNESS unknown kind %s\n", c.kind.c_str()); return 3; }
+        std::cout.rdbuf(old);
+        std::cout << rec.str() << std::flush;
     }
     return 0;
 }
